@@ -5,7 +5,7 @@
    [offset_ok n n_out off]  : 0 <= off and off + min <= max (the block fits);
    [pad_legal m n n_out off]: the padding lengths the docstring allows for mode m. *)
 From Coq Require Import ZArith Reals Lia Lra List Bool.
-From Verif Require Import Base.Num Base.Vec Base.VecR C16.Syntax Gen.Padding C16.Model C16.ModelOp C16.Proofs.
+From Verif Require Import Base.Num Base.Vec Base.VecR Lib.Axis C16.Syntax Gen.Padding C16.Model C16.ModelNd C16.ModelOp C16.Proofs.
 Import ListNotations.
 Local Open Scope R_scope.
 
@@ -60,6 +60,37 @@ Theorem resize_adjoint : forall (m : pmode) (x y : list R) (off : Z),
     dot fx y = dot x ay.
 Proof. exact adjoint_all. Qed.
 Print Assumptions resize_adjoint.
+
+(* ---- N-d (flat C-order arrays).  [sep_loop m d c cast outer ishape oshape offs]
+   applies the 1-d resize along axis 0, 1, ... ([Lib.Axis.along]); [sep_rev_loop]
+   applies the 1-d maps of the way back in the opposite axis order.  Both are
+   compared with resize_array on every N-d correspondence case (where the in-place
+   model [resizeN] with the working-slice bookkeeping is compared too); that the axis
+   order is immaterial is validated there, not proved.
+   [config_ok m ishape oshape offs]: every axis has an admissible offset and legal
+   padding -- any number of axes, growing in some while shrinking in others. ---- *)
+
+(* T1 (N-d): the separable adjoint is the transpose of the separable forward map. *)
+Theorem resize_adjoint_nd :
+  forall (m : pmode) (outer : nat) (ishape oshape : list nat) (offs : list Z) (x y : list R),
+  config_ok m ishape oshape offs = true ->
+  length x = (outer * prodn ishape)%nat -> length y = (outer * prodn oshape)%nat ->
+  dot (sep_loop m Forward 0 true outer ishape oshape offs x) y
+  = dot x (sep_rev_loop m Adjoint 0 true outer ishape oshape offs y).
+Proof. exact sep_adjoint. Qed.
+Print Assumptions resize_adjoint_nd.
+
+(* T1 (N-d): extending in every axis (mode m, constant c) and then cropping with the
+   same offsets (any mode) is the identity. *)
+Theorem crop_after_extend_nd :
+  forall (m m' : pmode) (c c' : R) (cast' : bool) (outer : nat) (ishape oshape : list nat)
+         (offs : list Z) (x : list R),
+  config_ok m ishape oshape offs = true -> all_grow ishape oshape = true ->
+  length x = (outer * prodn ishape)%nat ->
+  sep_rev_loop m' Forward c' cast' outer ishape oshape offs
+    (sep_loop m Forward c true outer ishape oshape offs x) = x.
+Proof. exact sep_crop_extend. Qed.
+Print Assumptions crop_after_extend_nd.
 
 (* T1 (operator range, per axis).  [resize_axis fixed a n_new off bl br] is the
    range axis built by _resize_discr from the domain axis a (interval, cells,
@@ -147,3 +178,7 @@ Proof.
   change (10 =? 1)%Z with false; cbv iota; numR.
   change (2 * 10)%Z with 20%Z; change (10 - 1)%Z with 9%Z. lra.
 Qed.
+Example config_ok_example :
+  config_ok PSymmetric [3; 4; 2]%nat [5; 2; 2]%nat [1; 1; 0]%Z = true
+  /\ config_ok POrder1 [2; 3]%nat [6; 3]%nat [3; 0]%Z && all_grow [2; 3]%nat [6; 3]%nat = true.
+Proof. split; vm_compute; reflexivity. Qed.
